@@ -28,6 +28,9 @@ pub mod c17;
 pub mod c18;
 
 pub fn run(cfg: &Cfg, rep: &mut Report) -> Result<(), String> {
+    if !cfg.quick() {
+        common::HUGE_ONE_IN.store(40, std::sync::atomic::Ordering::Relaxed);
+    }
     match cfg.check.as_str() {
         "c01" => c01::run(cfg, rep),
         "c02" => diff::run_c02(cfg, rep),
